@@ -147,6 +147,20 @@ func check(args []string) int {
 			for _, e := range ss.Errors {
 				c.Errors = append(c.Errors, e)
 			}
+			// the stored behaviour-preserving refactorings must stay silent
+			baseKeys := map[string]bool{}
+			for _, o := range c.Obs {
+				if o.Status != report.Held {
+					baseKeys[o.Key] = true
+				}
+			}
+			sb := rules.SelfTestBenign(id, *repo, verifRoot(), baseKeys)
+			extra["selftest_benign"] = sb.Rows
+			extra["selftest_benign_silent"] = sb.Killed
+			extra["selftest_benign_total"] = sb.Total
+			for _, e := range sb.Errors {
+				c.Errors = append(c.Errors, e)
+			}
 		}
 		wall := time.Since(t0).Seconds() + loadS
 		out, err := report.Finish(c, id, *tier, seed, wall, prop.Explanation, prop.Assumptions,
